@@ -132,6 +132,20 @@ class Kernel:
         return c
 
 
+class TypedKernel(Kernel):
+    """keeps the numeric conversions that Kernel treats as identities (as ('conv', name, term))"""
+    KEEP = ("to_f64", "from_f64", "to_f32", "from_f32")
+
+    def term(self, e, depth=0):
+        e2 = ds(e)
+        if isinstance(e2, tuple) and e2[0] == "call" and e2[1] in self.KEEP and e2[3]:
+            lf = self.leaf(e2)
+            if lf is not None:
+                return lf
+            return ("conv", e2[1], self.term(e2[3][0], depth + 1))
+        return Kernel.term(self, e, depth)
+
+
 def closure_function(prog, cbody, param_syms, upvar_leaf=None):
     """(return term, {upvar index: updated-value term}) of a loop-free closure body, as nested ite over its branches.
     param_syms: {param local: T-term or callable(expr)->T}.  Mutations of captured `&mut` accumulators are returned
